@@ -128,7 +128,7 @@ def stats(c, r):
 
 
 e1check.run(dict(
-    prop='C04', model='rw', harness='e1/rw.cpp', bin='e1_rw', gen=gen, nontrivial=nontrivial, stats=stats,
+    prop='C04', props=['C04', 'C04r'], model='rw', harness='e1/rw.cpp', bin='e1_rw', gen=gen, nontrivial=nontrivial, stats=stats,
     quick=6000, thorough=150000, extra=20000,
     corr_name='E1 log of harness/e1/rw.cpp (instrumented op_state_head + arw.dtor/arw.cont hooks) accepted by Lean model PikaVerif.Rw',
     rule='random sequential histories legal under the specification (2-14 requests over {read, readwrite}; senders started or dropped unstarted; read wrappers copied; values written/read; wrappers released; mutex destroyed at a random point or kept), cut into programs for 1-4 threads (thread 0 owns the mutex), run under PRNG schedules (uniform / priority / sticky) with a preemption point before every access to op_state_head and before every continuation; void and non-void mutexes; non-trivial = at least one queued operation state was granted by done() (arw.cont); distinct = distinct (program, schedule seed) text',
